@@ -618,6 +618,49 @@ def fixed_probes(ctx):
     if cerr is not None:
         fail(ctx, 'oracle-compile', 'extract_variable returned a program that does not compile', case,
              observed={'error': cerr, 'new_code': new})
+    # one minimal input per root cause of known_findings.d/C06.json (compile, then equivalence)
+    more = [
+        ('def f(a):\n    return a * -a\ny = f(3)\n', 'extract_variable', (2, 11), (2, 17)),
+        ('def f(a):\n    return -a + 1\ny = f(3)\n', 'extract_variable', (2, 11), (2, 17)),
+        ('y = 7 - 2 - 1\n', 'extract_variable', (1, 8), (1, 13)),
+        ('def f():\r\n    a = 1\r\n\r\n    b = a\r\n    return b\r\ny = f()\r\n', 'extract_function', (2, 4), (4, 9)),
+        ('class A:\n    x = not 1\n    def f(self):\n        return 2 + self.x\ny = A().f()\n', 'inline', (2, 4), None),
+        ('def f(a):\n    b = a + 1; c = b or b\n    return c\ny = f(1)\n', 'extract_variable', (2, 19), (2, 25)),
+        ('def f():\n    a = 1\n    return a\ny = f()\n', 'extract_function', (2, 4), (2, 5)),
+        ('def f():\n    a = 1\n    return a\ny = f()\n', 'extract_function', (2, 4), (2, 9)),
+        ('def f():\n    a = 1\n    return a\ny = f()\n', 'extract_function', (3, 4), (4, 0)),
+    ]
+    from jedi.api.exceptions import RefactoringError
+    for src, kind, pos, until in more:
+        case = {'source': src, 'kind': kind, 'line': pos[0], 'column': pos[1],
+                'until_line': until[0] if until else None, 'until_column': until[1] if until else None,
+                'tags': ['probe']}
+        try:
+            if kind == 'inline':
+                ref = jedi.Script(src).inline(*pos)
+            else:
+                ref = getattr(jedi.Script(src), kind)(pos[0], pos[1], new_name='extracted_1',
+                                                      until_line=until[0], until_column=until[1])
+        except (RefactoringError, ValueError):
+            ctx.count('oracle-compile', (src, kind, pos), nontrivial=False, bucket='probe/refused')
+            continue
+        except Exception as ex:
+            if sandbox_quirk(ex):
+                ctx.count('raised-sandbox', None, nontrivial=False)
+                continue
+            raise
+        new = new_code_of(ref)
+        ctx.count('oracle-compile', (src, kind, pos, until), nontrivial=True, bucket='probe')
+        cerr = compiles(new)
+        if cerr is not None:
+            fail(ctx, 'oracle-compile', '%s returned a program that does not compile' % kind, case,
+                 observed={'error': cerr, 'new_code': new})
+            continue
+        diff = compare_runs(refactor_gen.run_program(src), refactor_gen.run_program(new), {'extracted_1', 'x'})
+        ctx.count('oracle-equiv', (src, kind, pos, until), nontrivial=True, bucket='probe')
+        if diff is not None and (kind != 'extract_function' or until[0] == pos[0]):
+            fail(ctx, 'oracle-equiv', '%s changed the behaviour of the program' % kind, case,
+                 observed={'differences': diff, 'new_code': new})
 
 
 def compare(ctx, reqs, pending, answers):
